@@ -245,30 +245,38 @@ func (c *Channel) Invoke(ctx context.Context, method string, req, resp interface
 	go func() {
 		defer func() {
 			sts.Finish()
+			verifPoint("unary.srv.close")
 			close(ch)
 		}()
+		verifPoint("unary.srv.start")
 		ctx := grpc.NewContextWithServerTransportStream(makeServerContext(ctx), &sts)
 		v, err := md.Handler(handler, ctx, codec, c.unaryInterceptor)
+		verifPoint("unary.srv.handled")
 		if h := sts.GetHeaders(); len(h) > 0 {
+			verifPoint("unary.srv.wH")
 			_ = writeMessage(ctx, nil, ch, frame{headers: h})
 		}
 		if err == nil {
 			if isNil(v) {
 				err = status.Errorf(codes.Internal, "handler returned neither error nor response message")
 			} else {
+				verifPoint("unary.srv.wD")
 				_ = writeMessage(ctx, nil, ch, frame{data: v})
 			}
 		}
 		if t := sts.GetTrailers(); len(t) > 0 {
+			verifPoint("unary.srv.wT")
 			_ = writeMessage(ctx, nil, ch, frame{trailers: t})
 		}
 		if err != nil {
+			verifPoint("unary.srv.wE")
 			_ = writeMessage(ctx, nil, ch, frame{err: handlerError(err)})
 		}
 	}()
 
 	gotResponse := false
 	for {
+		verifPoint("unary.cli.loop")
 		select {
 		case r, ok := <-ch:
 			if !ok {
@@ -516,20 +524,24 @@ func (s *inProcessServerStream) finish(err error) {
 	s.mu.Lock()
 	defer func() {
 		s.state = streamStateClosed
+		verifPoint("stream.fin.close")
 		close(s.responses)
 		s.mu.Unlock()
 	}()
 
 	if s.state == streamStateHeaders && len(s.headers) > 0 {
+		verifPoint("stream.fin.wH")
 		_ = writeMessage(s.ctx, nil, s.responses, frame{headers: s.headers})
 	}
 
 	if len(s.trailers) > 0 {
+		verifPoint("stream.fin.wT")
 		_ = writeMessage(s.ctx, nil, s.responses, frame{trailers: s.trailers})
 	}
 	s.trailers = nil
 
 	if err != nil {
+		verifPoint("stream.fin.wE")
 		_ = writeMessage(s.ctx, nil, s.responses, frame{err: handlerError(err)})
 	}
 }
